@@ -42,6 +42,14 @@ TRIGGERS = {
 }
 
 
+def m60_digest(regs, mem):
+    """FNV-1a (64 bit) of `<regs>;<mem hash>` as printed by the Go harness: what Driver/Run.lean prints for Model.Mvp60"""
+    h = 14695981039346656037
+    for b in (regs + ";" + mem).encode():
+        h = ((h ^ b) * 1099511628211) & 0xFFFFFFFFFFFFFFFF
+    return "%016x" % h
+
+
 def classify(findings, prop, variant, f):
     for k in findings:
         t = k.get("trigger_id")
@@ -94,9 +102,11 @@ def run(ck, prop, stream, families_note, variants=None, judge=None, theorems=Non
         else:
             ck.notes.append(f"finding {k['id']}: pinned witness no longer fails")
     # 2. the stream
+    os.environ["VERIF_TIER"] = ck.tier   # the driver evaluates Model.Mvp60 for parallelism 1..4 in the thorough tier, 1..2 otherwise
     ins, go, lean = ck.run_stream(stream)
     per = Counter()
     tie_bad = []
+    tie_bad60 = []
     excused = Counter()
     claimed = Counter()
     bad = []
@@ -120,6 +130,24 @@ def run(ck, prop, stream, families_note, variants=None, judge=None, theorems=Non
                 if rr[0]["status"] != mstat or (mstat == "ok" and int(cyc) != rr[0]["cycles"]) or \
                         (mstat == "ok" and same != "same" and not ref["stop"].startswith("notwf")):
                     tie_bad.append(f"case {c['id']} {var}: Go {rr[0]['status']} cycles={rr[0]['cycles']} vs model {ref[key]}")
+        # tie of the Lean model of the superscalar MVP-6.0 (Model.Mvp60, eu = wu = K): status, cycles, ticks and the final
+        # registers and memory of the GO RUN (not of the reference: the model must reproduce the wrong results too)
+        for K in (1, 2, 3, 4):
+            key, var = f"m60p{K}", "mvp6-0"
+            rr = [x for x in res if x["variant"] == var and x["par"] == K]
+            if mods and key in ref and rr:
+                h, cyc, same, mticks, dig = ref[key].split(",")
+                mstat = {"ret": "ok", "offend": "ok", "err": "err", "panic": "panic", "fuel": "hang"}[h]
+                budget = meta.get("budget", 0)
+                if mstat != "hang" and budget > 0 and int(mticks) > budget:
+                    mstat = "hang"            # the model needs more ticks than the harness grants the Go machine
+                elif mstat == "hang" and budget > int(mticks):
+                    continue                  # the model's fuel (from the reference's step count) is below the Go budget: no verdict
+                g = rr[0]
+                gdig = m60_digest(g.get("regs", ""), g.get("mem", ""))
+                if g["status"] != mstat or (mstat == "ok" and int(cyc) != g["cycles"]) or \
+                        (mstat in ("ok", "err") and (int(mticks) != g["ticks"] or dig != gdig)):
+                    tie_bad60.append(f"case {c['id']} {var}/{K}: Go {g['status']} cycles={g['cycles']} ticks={g['ticks']} state={gdig} vs model {ref[key]}")
         if ref["stop"].startswith("notwf"):
             continue
         f = cpu.features(c, ref)
@@ -155,6 +183,8 @@ def run(ck, prop, stream, families_note, variants=None, judge=None, theorems=Non
         ck.cov["samples"] += [{"program": cpu.case_of(ins[j])["prog"], "reference": lean[j][:300], "go_first_config": go[j].split(" @@ ")[1][:300] if " @@ " in go[j] else go[j][:300]}]
     if tie_bad:
         ck.broken.append(f"correspondence Go MVP-1..MVP-5 vs the Lean machine models differs on {len(tie_bad)} cases; first: {tie_bad[0]}")
+    if tie_bad60:
+        ck.broken.append(f"correspondence Go MVP-6.0 vs the Lean machine model Model.Mvp60 differs on {len(tie_bad60)} runs; first: {tie_bad60[0]}")
     # 3. violations: one per (variant, verdict-kind), shrunk
     seen = set()
     for c, ref, r, v in bad:
